@@ -262,13 +262,31 @@ func plainDefs() []plainDef {
 	}
 }
 
-func plainShape(d plainDef) *shape {
-	return &shape{Name: d.name, Role: "plain", prepare: func(e *env) (*inst, error) {
+// plainShape: switched = the stream under test was created on ANOTHER connection
+// and moved to the connection in use with SetConnection before the operation
+// (what a reconnecting caller does): cancellation must act on the connection
+// the operation is blocked on, not on the one the stream was born with.
+func plainShape(d plainDef, switched bool) *shape {
+	name := d.name
+	if switched {
+		name += "_setconn"
+	}
+	return &shape{Name: name, Role: "plain", prepare: func(e *env) (*inst, error) {
 		sc, mine, theirs, closeLink, cleanup, err := link(true)
 		if err != nil {
 			return nil, err
 		}
-		a, b := stream.NewStream(mine), stream.NewStream(theirs)
+		var a *stream.Stream
+		if switched {
+			old1, old2 := net.Pipe()
+			a = stream.NewStream(old1)
+			a.SetConnection(mine)
+			cleanup0 := cleanup
+			cleanup = func() { cleanup0(); _ = old1.Close(); _ = old2.Close() }
+		} else {
+			a = stream.NewStream(mine)
+		}
+		b := stream.NewStream(theirs)
 		if d.enc {
 			if err := a.SetSymmetricKey(symKey()); err != nil {
 				cleanup()
@@ -433,7 +451,13 @@ func hsShape(d hsDef, role string) *shape {
 func allShapes() []*shape {
 	var out []*shape
 	for _, d := range plainDefs() {
-		out = append(out, plainShape(d))
+		out = append(out, plainShape(d, false))
+	}
+	for _, d := range plainDefs() {
+		switch d.name { // the SetConnection variant: one send, one receive, one exchange
+		case "send_single", "recv_frame", "exchange", "enc_recv":
+			out = append(out, plainShape(d, true))
+		}
 	}
 	for _, d := range hsDefs() {
 		out = append(out, hsShape(d, "client"), hsShape(d, "server"))
